@@ -105,6 +105,52 @@ Theorem c09_quiescent_terminates :
 Proof. exact quiescent_terminates. Qed.
 Print Assumptions c09_quiescent_terminates.
 
+(* An AOFSHRINK request that arrives while a rewrite is running is refused: it changes nothing (so
+   c09_concurrent_partial and c09_batches_never_repeat hold with requests anywhere in the schedule). *)
+Theorem c09_request_is_noop :
+  forall mk mi r, r_shrinking r = true -> do_ev mk mi r Req = r.
+Proof. exact request_is_noop. Qed.
+Print Assumptions c09_request_is_noop.
+
+(* The flag stays set during the whole schedule whatever requests arrive; after the epilogue of the
+   rewrite the next request starts a fresh rewrite with an empty shrinklog. *)
+Theorem c09_request_lifecycle :
+  forall s0 mk mi sched,
+    let r := run_sched mk mi sched (run_init s0) in
+    r_shrinking r = true /\ request (end_rewrite r) = run_init (r_live r).
+Proof. exact request_lifecycle. Qed.
+Print Assumptions c09_request_lifecycle.
+
+(* A rewrite started on any directory whose live file is the expected one ends with exactly
+   snapshot ++ shrinklog as the live file and no other file, whatever -bak / -shrink files an
+   interrupted rewrite left behind (os.Create truncates, the renames overwrite). *)
+Theorem c09_rewrite_ignores_leftovers :
+  forall d fi, d_live d = Some (f_live fi) ->
+    rewrite_dir d fi = mkDir (Some (f_snap fi ++ f_slog fi)) None None.
+Proof. exact rewrite_ignores_leftovers. Qed.
+Print Assumptions c09_rewrite_ignores_leftovers.
+
+Theorem c09_crash_points_leftovers :
+  forall d fi c, d_live d = Some (f_live fi) ->
+    same_data (replay (f_snap fi ++ f_slog fi) []) (replay (f_live fi ++ f_pend fi) []) ->
+    let d' := recover_dir (crash_from d fi c) in
+    same_data d' (replay (f_live fi) []) \/ same_data d' (replay (f_live fi ++ f_pend fi) []).
+Proof. exact crash_points_leftovers. Qed.
+Print Assumptions c09_crash_points_leftovers.
+
+(* The repaired start-up changes the directory but not the dataset it recovers to. *)
+Theorem c09_startup_keeps_data :
+  forall fi c, recover_dir (startup_dir (crash_at fi c)) = recover_dir (crash_at fi c).
+Proof. exact startup_keeps_data. Qed.
+Print Assumptions c09_startup_keeps_data.
+
+(* A crashed rewrite, a restart, and a second rewrite: the result is the second new file alone. *)
+Theorem c09_two_rewrites :
+  forall fi1 c fi2, d_live (startup_dir (crash_at fi1 c)) = Some (f_live fi2) ->
+    recover_dir (rewrite_dir (startup_dir (crash_at fi1 c)) fi2) = replay (f_snap fi2 ++ f_slog fi2) [].
+Proof. exact two_rewrites. Qed.
+Print Assumptions c09_two_rewrites.
+
 (* ---------------------------------------------------------------- non-vacuity *)
 
 (* ten collections, one with 40 objects (more than maxids = 32, and more keys than maxkeys = 8):
@@ -153,3 +199,30 @@ Proof.
   split; [intros k i; vm_compute; reflexivity|].
   split; [discriminate|]. vm_compute. repeat split; reflexivity.
 Qed.
+
+(* the schedule of c09_ex_concurrent with six AOFSHRINK requests inserted (after a section, right
+   after a writer, twice in a row, before the last sections, at the very end): same shrinklog
+   length, same result *)
+Example c09_ex_requests :
+  no_rename ex_sched_req = true /\
+  length (filter (fun e => match e with Req => true | _ => false end) ex_sched_req) = 6%nat /\
+  let r := run_sched maxkeys maxids ex_sched_req (run_init ex_data) in
+  let r0 := run_sched maxkeys maxids ex_sched (run_init ex_data) in
+  sh_done (r_sh r) = true /\ r_shrinking r = true /\ length (r_log r) = 9%nat /\ r = r0 /\
+  replay (newfile r) [] = r_live r.
+Proof. vm_compute. repeat split; reflexivity. Qed.
+
+(* ex_final dies at CP_after_sync and leaves a two-record -shrink file; after the start-up a second
+   rewrite whose snapshot has ONE record ends with exactly snapshot ++ shrinklog *)
+Example c09_ex_leftovers :
+  let d := crash_at ex_final CP_after_sync in
+  d_shrink d = Some (f_snap ex_final ++ f_slog ex_final) /\
+  length (f_snap ex_final ++ f_slog ex_final) = 2%nat /\
+  let d1 := startup_dir d in
+  d_shrink d1 = d_shrink d /\ d_live d1 = Some (f_live ex_final2) /\
+  length (f_snap ex_final2 ++ f_slog ex_final2) = 1%nat /\
+  replay (f_snap ex_final2 ++ f_slog ex_final2) [] = replay (f_live ex_final2 ++ f_pend ex_final2) [] /\
+  replay (f_live ex_final2) [] <> replay (f_live ex_final2 ++ f_pend ex_final2) [] /\
+  rewrite_dir d1 ex_final2 = mkDir (Some (f_snap ex_final2 ++ f_slog ex_final2)) None None /\
+  recover_dir (rewrite_dir d1 ex_final2) = replay (f_live ex_final2 ++ f_pend ex_final2) [].
+Proof. vm_compute. repeat split; try reflexivity. discriminate. Qed.
